@@ -399,7 +399,9 @@ class NF(object):
             except NFError:
                 a = b = None
             if a is not None and b is not None:
-                self._need("pos", base_t)
+                # same condition as vc.definedness: x^(p/q) needs x >= 0 for p/q > 0, x > 0 otherwise
+                cp = lf_constpart(e)
+                self._need("nonneg" if (lf_is_const(e) and cp > 0) else "pos", base_t)
                 return self.rf_mul(a, self.rf_inv(b))
         key = "f:pow(%s,%s)" % (self.canon_rf(base), self.canon_rf(self.nf(exp_t)))
         return self.atom(key, tm.mk_pow(base_t, exp_t))
@@ -480,13 +482,15 @@ class NF(object):
         out = []
         for kind, t in self.side:
             if t.op == "c":
-                if t.args[0] <= 0:
+                if t.args[0] < 0 or (t.args[0] == 0 and kind != "nonneg"):
                     out.append(tm.FALSE)
                 continue
             if t.op == "v" and t.args[0] == "pi":
                 continue
             if kind == "nonzero":
                 out.append(tm.mk_not(tm.mk_eq(t, tm.ZERO)))
+            elif kind == "nonneg":
+                out.append(tm.mk_le(tm.ZERO, t))
             else:
                 out.append(tm.mk_lt(tm.ZERO, t))
         return out
